@@ -1,0 +1,662 @@
+//go:build verif
+
+// Contracts for the verifier in /verif (comment-only file; compiled only with -tags verif).
+// Public/private view conversions of u_public.go: properties C31 (field maps, round trips),
+// C11 (handshake-state hand-off) and C35 (ticket keys).
+
+package tls
+
+//@ func (*KeySharePrivateKeys).ToPrivate
+//@   property C31 C11
+//@   modifies nothing
+//@   ensures nil: ksp == nil ==> ret == nil
+//@   ensures fresh: ksp != nil ==> ret != nil && fresh(ret)
+//@   ensures curveID: ksp != nil ==> ret.curveID == ksp.CurveID
+//@   ensures ecdhe: ksp != nil ==> ret.ecdhe == ksp.Ecdhe
+//@   ensures mlkem: ksp != nil ==> ret.mlkem == ksp.Mlkem
+//@   ensures mlkemEcdhe: ksp != nil ==> ret.mlkemEcdhe == ksp.MlkemEcdhe
+//@   note keySharePrivateKeys has exactly these four fields; all have a counterpart
+
+//@ func (*keySharePrivateKeys).ToPublic
+//@   property C31 C11
+//@   modifies nothing
+//@   ensures nil: ksp == nil ==> ret == nil
+//@   ensures fresh: ksp != nil ==> ret != nil && fresh(ret)
+//@   ensures curveID: ksp != nil ==> ret.CurveID == ksp.curveID
+//@   ensures ecdhe: ksp != nil ==> ret.Ecdhe == ksp.ecdhe
+//@   ensures mlkem: ksp != nil ==> ret.Mlkem == ksp.mlkem
+//@   ensures mlkemEcdhe: ksp != nil ==> ret.MlkemEcdhe == ksp.mlkemEcdhe
+//@   note KeySharePrivateKeys has exactly these four fields; ToPublic after ToPrivate (and vice versa) is the identity on all four, by composition of the two field maps
+
+// Deprecated KEM key view ("no longer used"), two fields each.
+//@ func (*KemPrivateKey).ToPrivate
+//@   property C31
+//@   modifies nothing
+//@   ensures nil: kpk == nil ==> ret == nil
+//@   ensures fresh: kpk != nil ==> ret != nil && fresh(ret)
+//@   ensures secretKey: kpk != nil ==> ret.secretKey == kpk.SecretKey
+//@   ensures curveID: kpk != nil ==> ret.curveID == kpk.CurveID
+
+//@ func (*kemPrivateKey).ToPublic
+//@   property C31
+//@   modifies nothing
+//@   ensures nil: kpk == nil ==> ret == nil
+//@   ensures fresh: kpk != nil ==> ret != nil && fresh(ret)
+//@   ensures SecretKey: kpk != nil ==> ret.SecretKey == kpk.secretKey
+//@   ensures CurveID: kpk != nil ==> ret.CurveID == kpk.curveID
+
+// ---- TLS 1.3 cipher-suite view --------------------------------------------------------------
+
+//@ spec cs13Map(p, P) = (P == nil <==> p == nil) && (P != nil ==> p.id == P.Id && p.keyLen == P.KeyLen && p.aead == P.Aead && p.hash == P.Hash)
+
+//@ func (*PubCipherSuiteTLS13).toPrivate
+//@   property C31 C11
+//@   modifies nothing
+//@   ensures nil: c == nil ==> ret == nil
+//@   ensures fresh: c != nil ==> ret != nil && fresh(ret)
+//@   ensures id: c != nil ==> ret.id == c.Id
+//@   ensures keyLen: c != nil ==> ret.keyLen == c.KeyLen
+//@   ensures aead: c != nil ==> ret.aead == c.Aead
+//@   ensures hash: c != nil ==> ret.hash == c.Hash
+//@   ensures all: cs13Map(ret, c)
+//@   note cipherSuiteTLS13 has exactly the fields id, keyLen, aead, hash; all have a counterpart
+
+//@ func (*cipherSuiteTLS13).toPublic
+//@   property C31 C11
+//@   modifies nothing
+//@   ensures nil: c == nil ==> ret == nil
+//@   ensures fresh: c != nil ==> ret != nil && fresh(ret)
+//@   ensures id: c != nil ==> ret.Id == c.id
+//@   ensures keyLen: c != nil ==> ret.KeyLen == c.keyLen
+//@   ensures aead: c != nil ==> ret.Aead == c.aead
+//@   ensures hash: c != nil ==> ret.Hash == c.hash
+//@   ensures all: cs13Map(c, ret)
+//@   note PubCipherSuiteTLS13 has exactly the fields Id, KeyLen, Aead, Hash; round trip in both directions is the identity on all four (composition of the two maps)
+
+// ---- TLS 1.0-1.2 cipher-suite view ----------------------------------------------------------
+
+//@ func (*PubCipherSuite).getPrivatePtr
+//@   property C31 C11
+//@   modifies nothing
+//@   ensures nil: cs == nil ==> ret == nil
+//@   ensures fresh: cs != nil ==> ret != nil && fresh(ret)
+//@   ensures id: cs != nil ==> ret.id == cs.Id
+//@   ensures keyLen: cs != nil ==> ret.keyLen == cs.KeyLen
+//@   ensures macLen: cs != nil ==> ret.macLen == cs.MacLen
+//@   ensures ivLen: cs != nil ==> ret.ivLen == cs.IvLen
+//@   ensures ka: cs != nil ==> ret.ka == cs.Ka
+//@   ensures flags: cs != nil ==> ret.flags == cs.Flags
+//@   ensures cipher: cs != nil ==> ret.cipher == cs.Cipher
+//@   ensures mac: cs != nil ==> ret.mac == cs.Mac
+//@   ensures aead: cs != nil ==> ret.aead == cs.Aead
+//@   note cipherSuite has exactly these nine fields; all have a counterpart
+
+//@ func (*cipherSuite).getPublicObj
+//@   property C31 C11
+//@   modifies nothing
+//@   ensures id: cs != nil ==> ret.Id == cs.id
+//@   ensures keyLen: cs != nil ==> ret.KeyLen == cs.keyLen
+//@   ensures macLen: cs != nil ==> ret.MacLen == cs.macLen
+//@   ensures ivLen: cs != nil ==> ret.IvLen == cs.ivLen
+//@   ensures ka: cs != nil ==> ret.Ka == cs.ka
+//@   ensures flags: cs != nil ==> ret.Flags == cs.flags
+//@   ensures cipher: cs != nil ==> ret.Cipher == cs.cipher
+//@   ensures mac: cs != nil ==> ret.Mac == cs.mac
+//@   ensures aead: cs != nil ==> ret.Aead == cs.aead
+//@   ensures nilzero: cs == nil ==> ret.Id == 0 && ret.KeyLen == 0 && ret.MacLen == 0 && ret.IvLen == 0 && ret.Ka == nil && ret.Flags == 0 && ret.Cipher == nil && ret.Mac == nil && ret.Aead == nil
+//@   note PubCipherSuite has exactly these nine fields. The result is a value, so a nil suite becomes the zero PubCipherSuite; converting that back with getPrivatePtr gives a non-nil all-zero cipherSuite (nil is not preserved by private->public->private, every field of a non-nil suite is)
+
+// ---- CertificateRequest (TLS 1.3) view ------------------------------------------------------
+
+//@ spec crmMap(p, P) = (P == nil <==> p == nil) && (P != nil ==> p.ocspStapling == P.OcspStapling && p.scts == P.Scts && p.supportedSignatureAlgorithms == P.SupportedSignatureAlgorithms && p.supportedSignatureAlgorithmsCert == P.SupportedSignatureAlgorithmsCert && p.certificateAuthorities == P.CertificateAuthorities)
+
+//@ func (*CertificateRequestMsgTLS13).toPrivate
+//@   property C31 C11
+//@   modifies nothing
+//@   ensures nil: crm == nil ==> ret == nil
+//@   ensures fresh: crm != nil ==> ret != nil && fresh(ret)
+//@   ensures original: crm != nil ==> isnil(ret.original)
+//@   ensures ocspStapling: crm != nil ==> ret.ocspStapling == crm.OcspStapling
+//@   ensures scts: crm != nil ==> ret.scts == crm.Scts
+//@   ensures sigAlgs: crm != nil ==> ret.supportedSignatureAlgorithms == crm.SupportedSignatureAlgorithms
+//@   ensures sigAlgsCert: crm != nil ==> ret.supportedSignatureAlgorithmsCert == crm.SupportedSignatureAlgorithmsCert
+//@   ensures cas: crm != nil ==> ret.certificateAuthorities == crm.CertificateAuthorities
+//@   ensures all: crmMap(ret, crm)
+//@   note certificateRequestMsgTLS13.original is deliberately not filled from the deprecated CertificateRequestMsgTLS13.Raw ("won't be read or used by utls"); the other five fields all have a counterpart
+
+// certificateRequestMsgTLS13.marshal (upstream, cryptobyte.Builder with continuation closures) is outside the
+// generator's subset; the only thing assumed about it is that it does not write to existing memory.
+//@ trusted func (*certificateRequestMsgTLS13).marshal
+//@   modifies nothing
+
+//@ func (*certificateRequestMsgTLS13).toPublic
+//@   property C31 C11
+//@   modifies nothing
+//@   ensures nil: crm == nil ==> ret == nil
+//@   ensures fresh: crm != nil ==> ret != nil && fresh(ret)
+//@   ensures ocspStapling: crm != nil ==> ret.OcspStapling == crm.ocspStapling
+//@   ensures scts: crm != nil ==> ret.Scts == crm.scts
+//@   ensures sigAlgs: crm != nil ==> ret.SupportedSignatureAlgorithms == crm.supportedSignatureAlgorithms
+//@   ensures sigAlgsCert: crm != nil ==> ret.SupportedSignatureAlgorithmsCert == crm.supportedSignatureAlgorithmsCert
+//@   ensures cas: crm != nil ==> ret.CertificateAuthorities == crm.certificateAuthorities
+//@   ensures all: crmMap(crm, ret)
+//@   note Raw is the re-marshalled message (or an empty non-nil slice when marshalling fails), not crm.original; its bytes are not specified here. All six fields of CertificateRequestMsgTLS13 are assigned.
+
+// ---- ServerHello view -----------------------------------------------------------------------
+
+//@ spec shmMap(p, P) = (P == nil <==> p == nil) && (P != nil ==> p.original == P.Raw && p.vers == P.Vers && p.random == P.Random && p.sessionId == P.SessionId && p.cipherSuite == P.CipherSuite && p.compressionMethod == P.CompressionMethod && p.nextProtoNeg == P.NextProtoNeg && p.nextProtos == P.NextProtos && p.ocspStapling == P.OcspStapling && p.scts == P.Scts && p.extendedMasterSecret == P.ExtendedMasterSecret && p.ticketSupported == P.TicketSupported && p.secureRenegotiation == P.SecureRenegotiation && p.secureRenegotiationSupported == P.SecureRenegotiationSupported && p.alpnProtocol == P.AlpnProtocol && p.supportedVersion == P.SupportedVersion && p.serverShare.group == P.ServerShare.group && p.serverShare.data == P.ServerShare.data && p.selectedIdentityPresent == P.SelectedIdentityPresent && p.selectedIdentity == P.SelectedIdentity && p.cookie == P.Cookie && p.selectedGroup == P.SelectedGroup)
+
+//@ func (*PubServerHelloMsg).getPrivatePtr
+//@   property C31 C11
+//@   modifies nothing
+//@   ensures nil: shm == nil ==> ret == nil
+//@   ensures fresh: shm != nil ==> ret != nil && fresh(ret)
+//@   ensures original: shm != nil ==> ret.original == shm.Raw
+//@   ensures vers: shm != nil ==> ret.vers == shm.Vers
+//@   ensures random: shm != nil ==> ret.random == shm.Random
+//@   ensures sessionId: shm != nil ==> ret.sessionId == shm.SessionId
+//@   ensures cipherSuite: shm != nil ==> ret.cipherSuite == shm.CipherSuite
+//@   ensures compressionMethod: shm != nil ==> ret.compressionMethod == shm.CompressionMethod
+//@   ensures ocspStapling: shm != nil ==> ret.ocspStapling == shm.OcspStapling
+//@   ensures ticketSupported: shm != nil ==> ret.ticketSupported == shm.TicketSupported
+//@   ensures secureRenegotiationSupported: shm != nil ==> ret.secureRenegotiationSupported == shm.SecureRenegotiationSupported
+//@   ensures secureRenegotiation: shm != nil ==> ret.secureRenegotiation == shm.SecureRenegotiation
+//@   ensures extendedMasterSecret: shm != nil ==> ret.extendedMasterSecret == shm.ExtendedMasterSecret
+//@   ensures alpnProtocol: shm != nil ==> ret.alpnProtocol == shm.AlpnProtocol
+//@   ensures scts: shm != nil ==> ret.scts == shm.Scts
+//@   ensures supportedVersion: shm != nil ==> ret.supportedVersion == shm.SupportedVersion
+//@   ensures serverShare: shm != nil ==> ret.serverShare.group == shm.ServerShare.group && ret.serverShare.data == shm.ServerShare.data
+//@   ensures serverShareEq: shm != nil ==> ret.serverShare == shm.ServerShare
+//@   ensures selectedIdentityPresent: shm != nil ==> ret.selectedIdentityPresent == shm.SelectedIdentityPresent
+//@   ensures selectedIdentity: shm != nil ==> ret.selectedIdentity == shm.SelectedIdentity
+//@   ensures cookie: shm != nil ==> ret.cookie == shm.Cookie
+//@   ensures selectedGroup: shm != nil ==> ret.selectedGroup == shm.SelectedGroup
+//@   ensures nextProtoNeg: shm != nil ==> ret.nextProtoNeg == shm.NextProtoNeg
+//@   ensures nextProtos: shm != nil ==> ret.nextProtos == shm.NextProtos
+//@   ensures nocounterpart: shm != nil ==> isnil(ret.supportedPoints) && isnil(ret.encryptedClientHello) && !ret.serverNameAck
+//@   ensures all: shmMap(ret, shm)
+//@   note serverHelloMsg has 24 fields; supportedPoints, encryptedClientHello and serverNameAck have no counterpart in PubServerHelloMsg and are left zero (clause nocounterpart), the other 21 are listed one by one
+
+//@ func (*serverHelloMsg).getPublicPtr
+//@   property C31 C11
+//@   modifies nothing
+//@   ensures nil: shm == nil ==> ret == nil
+//@   ensures fresh: shm != nil ==> ret != nil && fresh(ret)
+//@   ensures Raw: shm != nil ==> ret.Raw == shm.original
+//@   ensures Vers: shm != nil ==> ret.Vers == shm.vers
+//@   ensures Random: shm != nil ==> ret.Random == shm.random
+//@   ensures SessionId: shm != nil ==> ret.SessionId == shm.sessionId
+//@   ensures CipherSuite: shm != nil ==> ret.CipherSuite == shm.cipherSuite
+//@   ensures CompressionMethod: shm != nil ==> ret.CompressionMethod == shm.compressionMethod
+//@   ensures NextProtoNeg: shm != nil ==> ret.NextProtoNeg == shm.nextProtoNeg
+//@   ensures NextProtos: shm != nil ==> ret.NextProtos == shm.nextProtos
+//@   ensures OcspStapling: shm != nil ==> ret.OcspStapling == shm.ocspStapling
+//@   ensures Scts: shm != nil ==> ret.Scts == shm.scts
+//@   ensures ExtendedMasterSecret: shm != nil ==> ret.ExtendedMasterSecret == shm.extendedMasterSecret
+//@   ensures TicketSupported: shm != nil ==> ret.TicketSupported == shm.ticketSupported
+//@   ensures SecureRenegotiation: shm != nil ==> ret.SecureRenegotiation == shm.secureRenegotiation
+//@   ensures SecureRenegotiationSupported: shm != nil ==> ret.SecureRenegotiationSupported == shm.secureRenegotiationSupported
+//@   ensures AlpnProtocol: shm != nil ==> ret.AlpnProtocol == shm.alpnProtocol
+//@   ensures SupportedVersion: shm != nil ==> ret.SupportedVersion == shm.supportedVersion
+//@   ensures ServerShare: shm != nil ==> ret.ServerShare.group == shm.serverShare.group && ret.ServerShare.data == shm.serverShare.data
+//@   ensures SelectedIdentityPresent: shm != nil ==> ret.SelectedIdentityPresent == shm.selectedIdentityPresent
+//@   ensures SelectedIdentity: shm != nil ==> ret.SelectedIdentity == shm.selectedIdentity
+//@   ensures Cookie: shm != nil ==> ret.Cookie == shm.cookie
+//@   ensures SelectedGroup: shm != nil ==> ret.SelectedGroup == shm.selectedGroup
+//@   ensures all: shmMap(shm, ret)
+//@   note all 21 fields of PubServerHelloMsg are assigned, so public->private->public is the identity on every field (compose with the map above); private->public->private loses supportedPoints, encryptedClientHello and serverNameAck, which PubServerHelloMsg cannot represent
+
+// ---- key shares and PSK identities (slices rebuilt element by element) ----------------------
+
+//@ spec ksMap(p, P) = len(p) == len(P) && forall i in 0..len(P): p[i].group == P[i].Group && p[i].data == P[i].Data
+//@ spec pskMap(p, P) = len(p) == len(P) && forall i in 0..len(P): p[i].label == P[i].Label && p[i].obfuscatedTicketAge == P[i].ObfuscatedTicketAge
+
+//@ func KeyShares.ToPrivate
+//@   property C31
+//@   modifies nothing
+//@   ensures len: len(ret) == len(KSS)
+//@   ensures elems: forall i in 0..len(KSS): ret[i].group == KSS[i].Group && ret[i].data == KSS[i].Data
+//@   ensures all: ksMap(ret, KSS)
+//@   ensures alloc: isnil(ret) || fresh(ret)
+//@   ensures empty: len(KSS) == 0 ==> isnil(ret)
+//@   loop 0 invariant -1 <= $rangeindex && $rangeindex < len(KSS)
+//@   loop 0 invariant len(kss) == $k && (isnil(kss) || fresh(kss))
+//@   loop 0 invariant $k == 0 ==> isnil(kss)
+//@   loop 0 invariant forall i in 0..$k: kss[i].group == KSS[i].Group && kss[i].data == KSS[i].Data
+//@   note keyShare has exactly the fields group and data; the data slices are shared, not copied. An empty non-nil input becomes nil (clause empty)
+
+//@ func tls.keyShares.ToPublic
+//@   property C31
+//@   modifies nothing
+//@   ensures len: len(ret) == len(kss)
+//@   ensures elems: forall i in 0..len(kss): ret[i].Group == kss[i].group && ret[i].Data == kss[i].data
+//@   ensures all: ksMap(kss, ret)
+//@   ensures alloc: isnil(ret) || fresh(ret)
+//@   ensures empty: len(kss) == 0 ==> isnil(ret)
+//@   loop 0 invariant -1 <= $rangeindex && $rangeindex < len(kss)
+//@   loop 0 invariant len(KSS) == $k && (isnil(KSS) || fresh(KSS))
+//@   loop 0 invariant $k == 0 ==> isnil(KSS)
+//@   loop 0 invariant forall i in 0..$k: KSS[i].Group == kss[i].group && KSS[i].Data == kss[i].data
+//@   note KeyShare has exactly the fields Group and Data; round trip preserves length and every element field (compose the two maps), but not the slice identity and not the nil/empty distinction
+
+//@ func PskIdentities.ToPrivate
+//@   property C31
+//@   modifies nothing
+//@   ensures len: len(ret) == len(PSS)
+//@   ensures elems: forall i in 0..len(PSS): ret[i].label == PSS[i].Label && ret[i].obfuscatedTicketAge == PSS[i].ObfuscatedTicketAge
+//@   ensures all: pskMap(ret, PSS)
+//@   ensures alloc: isnil(ret) || fresh(ret)
+//@   ensures empty: len(PSS) == 0 ==> isnil(ret)
+//@   loop 0 invariant -1 <= $rangeindex && $rangeindex < len(PSS)
+//@   loop 0 invariant len(pss) == $k && (isnil(pss) || fresh(pss))
+//@   loop 0 invariant $k == 0 ==> isnil(pss)
+//@   loop 0 invariant forall i in 0..$k: pss[i].label == PSS[i].Label && pss[i].obfuscatedTicketAge == PSS[i].ObfuscatedTicketAge
+//@   note pskIdentity has exactly the fields label and obfuscatedTicketAge
+
+//@ func tls.pskIdentities.ToPublic
+//@   property C31
+//@   modifies nothing
+//@   ensures len: len(ret) == len(pss)
+//@   ensures elems: forall i in 0..len(pss): ret[i].Label == pss[i].label && ret[i].ObfuscatedTicketAge == pss[i].obfuscatedTicketAge
+//@   ensures all: pskMap(pss, ret)
+//@   ensures alloc: isnil(ret) || fresh(ret)
+//@   ensures empty: len(pss) == 0 ==> isnil(ret)
+//@   loop 0 invariant -1 <= $rangeindex && $rangeindex < len(pss)
+//@   loop 0 invariant len(PSS) == $k && (isnil(PSS) || fresh(PSS))
+//@   loop 0 invariant $k == 0 ==> isnil(PSS)
+//@   loop 0 invariant forall i in 0..$k: PSS[i].Label == pss[i].label && PSS[i].ObfuscatedTicketAge == pss[i].obfuscatedTicketAge
+//@   note PskIdentity has exactly the fields Label and ObfuscatedTicketAge; round trip as for key shares
+
+// ---- ClientHello view -----------------------------------------------------------------------
+
+// chmMap: every field of clientHelloMsg that has a counterpart in PubClientHelloMsg (29 of 30; `extensions` has none).
+//@ spec chmMap(p, P) = (P == nil <==> p == nil) && (P != nil ==> p.original == P.Raw && p.vers == P.Vers && p.random == P.Random && p.sessionId == P.SessionId && p.cipherSuites == P.CipherSuites && p.compressionMethods == P.CompressionMethods && p.serverName == P.ServerName && p.ocspStapling == P.OcspStapling && p.supportedCurves == P.SupportedCurves && p.supportedPoints == P.SupportedPoints && p.ticketSupported == P.TicketSupported && p.sessionTicket == P.SessionTicket && p.supportedSignatureAlgorithms == P.SupportedSignatureAlgorithms && p.supportedSignatureAlgorithmsCert == P.SupportedSignatureAlgorithmsCert && p.secureRenegotiationSupported == P.SecureRenegotiationSupported && p.secureRenegotiation == P.SecureRenegotiation && p.extendedMasterSecret == P.Ems && p.alpnProtocols == P.AlpnProtocols && p.scts == P.Scts && p.supportedVersions == P.SupportedVersions && p.cookie == P.Cookie && ksMap(p.keyShares, P.KeyShares) && p.earlyData == P.EarlyData && p.pskModes == P.PskModes && pskMap(p.pskIdentities, P.PskIdentities) && p.pskBinders == P.PskBinders && p.quicTransportParameters == P.QuicTransportParameters && p.encryptedClientHello == P.encryptedClientHello && p.nextProtoNeg == P.NextProtoNeg)
+
+//@ func (*PubClientHelloMsg).getPrivatePtr
+//@   property C31 C11
+//@   modifies chm.cachedPrivateHello
+//@   ensures nil: chm == nil ==> ret == nil
+//@   ensures fresh: chm != nil ==> ret != nil && fresh(ret)
+//@   ensures cached: chm != nil ==> chm.cachedPrivateHello == ret
+//@   ensures original: chm != nil ==> ret.original == chm.Raw
+//@   ensures vers: chm != nil ==> ret.vers == chm.Vers
+//@   ensures random: chm != nil ==> ret.random == chm.Random
+//@   ensures sessionId: chm != nil ==> ret.sessionId == chm.SessionId
+//@   ensures cipherSuites: chm != nil ==> ret.cipherSuites == chm.CipherSuites
+//@   ensures compressionMethods: chm != nil ==> ret.compressionMethods == chm.CompressionMethods
+//@   ensures serverName: chm != nil ==> ret.serverName == chm.ServerName
+//@   ensures ocspStapling: chm != nil ==> ret.ocspStapling == chm.OcspStapling
+//@   ensures supportedCurves: chm != nil ==> ret.supportedCurves == chm.SupportedCurves
+//@   ensures supportedPoints: chm != nil ==> ret.supportedPoints == chm.SupportedPoints
+//@   ensures ticketSupported: chm != nil ==> ret.ticketSupported == chm.TicketSupported
+//@   ensures sessionTicket: chm != nil ==> ret.sessionTicket == chm.SessionTicket
+//@   ensures sigAlgs: chm != nil ==> ret.supportedSignatureAlgorithms == chm.SupportedSignatureAlgorithms
+//@   ensures sigAlgsCert: chm != nil ==> ret.supportedSignatureAlgorithmsCert == chm.SupportedSignatureAlgorithmsCert
+//@   ensures secureRenegotiationSupported: chm != nil ==> ret.secureRenegotiationSupported == chm.SecureRenegotiationSupported
+//@   ensures secureRenegotiation: chm != nil ==> ret.secureRenegotiation == chm.SecureRenegotiation
+//@   ensures extendedMasterSecret: chm != nil ==> ret.extendedMasterSecret == chm.Ems
+//@   ensures alpnProtocols: chm != nil ==> ret.alpnProtocols == chm.AlpnProtocols
+//@   ensures scts: chm != nil ==> ret.scts == chm.Scts
+//@   ensures supportedVersions: chm != nil ==> ret.supportedVersions == chm.SupportedVersions
+//@   ensures cookie: chm != nil ==> ret.cookie == chm.Cookie
+//@   ensures keyShares: chm != nil ==> len(ret.keyShares) == len(chm.KeyShares) && forall i in 0..len(chm.KeyShares): ret.keyShares[i].group == chm.KeyShares[i].Group && ret.keyShares[i].data == chm.KeyShares[i].Data
+//@   ensures earlyData: chm != nil ==> ret.earlyData == chm.EarlyData
+//@   ensures pskModes: chm != nil ==> ret.pskModes == chm.PskModes
+//@   ensures pskIdentities: chm != nil ==> len(ret.pskIdentities) == len(chm.PskIdentities) && forall i in 0..len(chm.PskIdentities): ret.pskIdentities[i].label == chm.PskIdentities[i].Label && ret.pskIdentities[i].obfuscatedTicketAge == chm.PskIdentities[i].ObfuscatedTicketAge
+//@   ensures pskBinders: chm != nil ==> ret.pskBinders == chm.PskBinders
+//@   ensures quicTransportParameters: chm != nil ==> ret.quicTransportParameters == chm.QuicTransportParameters
+//@   ensures encryptedClientHello: chm != nil ==> ret.encryptedClientHello == chm.encryptedClientHello
+//@   ensures nextProtoNeg: chm != nil ==> ret.nextProtoNeg == chm.NextProtoNeg
+//@   ensures nocounterpart: chm != nil ==> isnil(ret.extensions)
+//@   ensures all: chmMap(ret, chm)
+//@   note clientHelloMsg has 30 fields: 29 are listed one by one; `extensions` (server side only) has no counterpart and stays nil. The only write to existing memory is the cache pointer chm.cachedPrivateHello.
+
+//@ func (*clientHelloMsg).getPublicPtr
+//@   property C31 C11
+//@   modifies nothing
+//@   ensures nil: chm == nil ==> ret == nil
+//@   ensures fresh: chm != nil ==> ret != nil && fresh(ret)
+//@   ensures Raw: chm != nil ==> ret.Raw == chm.original
+//@   ensures Vers: chm != nil ==> ret.Vers == chm.vers
+//@   ensures Random: chm != nil ==> ret.Random == chm.random
+//@   ensures SessionId: chm != nil ==> ret.SessionId == chm.sessionId
+//@   ensures CipherSuites: chm != nil ==> ret.CipherSuites == chm.cipherSuites
+//@   ensures CompressionMethods: chm != nil ==> ret.CompressionMethods == chm.compressionMethods
+//@   ensures NextProtoNeg: chm != nil ==> ret.NextProtoNeg == chm.nextProtoNeg
+//@   ensures ServerName: chm != nil ==> ret.ServerName == chm.serverName
+//@   ensures OcspStapling: chm != nil ==> ret.OcspStapling == chm.ocspStapling
+//@   ensures Scts: chm != nil ==> ret.Scts == chm.scts
+//@   ensures Ems: chm != nil ==> ret.Ems == chm.extendedMasterSecret
+//@   ensures SupportedCurves: chm != nil ==> ret.SupportedCurves == chm.supportedCurves
+//@   ensures SupportedPoints: chm != nil ==> ret.SupportedPoints == chm.supportedPoints
+//@   ensures TicketSupported: chm != nil ==> ret.TicketSupported == chm.ticketSupported
+//@   ensures SessionTicket: chm != nil ==> ret.SessionTicket == chm.sessionTicket
+//@   ensures SigAlgs: chm != nil ==> ret.SupportedSignatureAlgorithms == chm.supportedSignatureAlgorithms
+//@   ensures SecureRenegotiation: chm != nil ==> ret.SecureRenegotiation == chm.secureRenegotiation
+//@   ensures SecureRenegotiationSupported: chm != nil ==> ret.SecureRenegotiationSupported == chm.secureRenegotiationSupported
+//@   ensures AlpnProtocols: chm != nil ==> ret.AlpnProtocols == chm.alpnProtocols
+//@   ensures SigAlgsCert: chm != nil ==> ret.SupportedSignatureAlgorithmsCert == chm.supportedSignatureAlgorithmsCert
+//@   ensures SupportedVersions: chm != nil ==> ret.SupportedVersions == chm.supportedVersions
+//@   ensures Cookie: chm != nil ==> ret.Cookie == chm.cookie
+//@   ensures KeyShares: chm != nil ==> len(ret.KeyShares) == len(chm.keyShares) && forall i in 0..len(chm.keyShares): ret.KeyShares[i].Group == chm.keyShares[i].group && ret.KeyShares[i].Data == chm.keyShares[i].data
+//@   ensures EarlyData: chm != nil ==> ret.EarlyData == chm.earlyData
+//@   ensures PskModes: chm != nil ==> ret.PskModes == chm.pskModes
+//@   ensures PskIdentities: chm != nil ==> len(ret.PskIdentities) == len(chm.pskIdentities) && forall i in 0..len(chm.pskIdentities): ret.PskIdentities[i].Label == chm.pskIdentities[i].label && ret.PskIdentities[i].ObfuscatedTicketAge == chm.pskIdentities[i].obfuscatedTicketAge
+//@   ensures PskBinders: chm != nil ==> ret.PskBinders == chm.pskBinders
+//@   ensures QuicTransportParameters: chm != nil ==> ret.QuicTransportParameters == chm.quicTransportParameters
+//@   ensures cachedPrivateHello: chm != nil ==> ret.cachedPrivateHello == chm
+//@   ensures encryptedClientHello: chm != nil ==> ret.encryptedClientHello == chm.encryptedClientHello
+//@   ensures all: chmMap(chm, ret)
+//@   note all 30 fields of PubClientHelloMsg are assigned. Round trip: getPrivatePtr names every field of its result in terms of the public message and getPublicPtr names every field of its result in terms of the private one, so public->private->public is the identity on 28 scalar/slice-header fields and element-wise on KeyShares and PskIdentities (cachedPrivateHello then points to the intermediate private message); private->public->private is the identity on everything except `extensions` (no counterpart). Nil/empty of KeyShares/PskIdentities is not preserved (empty becomes nil), which marshalMsg does not distinguish (it tests len > 0).
+
+// ---- FinishedHash view ----------------------------------------------------------------------
+
+// The two adapters return a new closure over their argument; nothing else is specified (calls through
+// function values are opaque to the verifier).
+//@ func prfFuncV1ToV2
+//@   property C31 C11
+//@   modifies nothing
+//@   ensures nonnil: ret != nil
+
+//@ func prfFuncV2ToV1
+//@   property C31 C11
+//@   modifies nothing
+//@   ensures nonnil: ret != nil
+
+//@ func (*FinishedHash).getPrivateObj
+//@   property C31 C11
+//@   modifies nothing
+//@   ensures client: fh != nil ==> ret.client == fh.Client
+//@   ensures server: fh != nil ==> ret.server == fh.Server
+//@   ensures clientMD5: fh != nil ==> ret.clientMD5 == fh.ClientMD5
+//@   ensures serverMD5: fh != nil ==> ret.serverMD5 == fh.ServerMD5
+//@   ensures buffer: fh != nil ==> ret.buffer == fh.Buffer
+//@   ensures version: fh != nil ==> ret.version == fh.Version
+//@   ensures prfv2: fh != nil && fh.Prfv2 != nil ==> ret.prf == fh.Prfv2
+//@   ensures prfv1: fh != nil && fh.Prfv2 == nil && fh.Prf != nil ==> ret.prf != nil
+//@   ensures prfnone: fh != nil && fh.Prfv2 == nil && fh.Prf == nil ==> ret.prf == nil
+//@   ensures nilzero: fh == nil ==> ret.client == nil && ret.server == nil && ret.clientMD5 == nil && ret.serverMD5 == nil && isnil(ret.buffer) && ret.version == 0 && ret.prf == nil
+//@   note finishedHash has exactly these seven fields. prf comes from Prfv2 when set, else it is the V1->V2 adapter around the deprecated Prf (a new closure, so only non-nilness can be stated).
+
+//@ func (*finishedHash).getPublicObj
+//@   property C31 C11
+//@   modifies nothing
+//@   ensures Client: fh != nil ==> ret.Client == fh.client
+//@   ensures Server: fh != nil ==> ret.Server == fh.server
+//@   ensures ClientMD5: fh != nil ==> ret.ClientMD5 == fh.clientMD5
+//@   ensures ServerMD5: fh != nil ==> ret.ServerMD5 == fh.serverMD5
+//@   ensures Buffer: fh != nil ==> ret.Buffer == fh.buffer
+//@   ensures Version: fh != nil ==> ret.Version == fh.version
+//@   ensures Prfv2: fh != nil ==> ret.Prfv2 == fh.prf
+//@   ensures Prf: fh != nil && fh.prf != nil ==> ret.Prf != nil
+//@   ensures DEFECT_prf_nil_not_preserved: fh != nil && fh.prf == nil ==> ret.Prf == nil
+//@   ensures actual_prf_always_set: fh != nil ==> ret.Prf != nil
+//@   ensures nilzero: fh == nil ==> ret.Client == nil && ret.Server == nil && ret.ClientMD5 == nil && ret.ServerMD5 == nil && isnil(ret.Buffer) && ret.Version == 0 && ret.Prfv2 == nil && ret.Prf == nil
+//@   note FinishedHash has exactly these eight fields. Round trip private->public->private: Prfv2 == prf, and getPrivateObj prefers Prfv2, so prf is preserved whenever it is non-nil. When prf == nil the code still wraps it (Prf = prfFuncV2ToV1(nil) is a non-nil closure), so the way back yields prf = prfFuncV1ToV2(that closure) != nil, a function that panics when called: clause DEFECT_prf_nil_not_preserved is expected to be refuted (clause actual_prf_always_set, which is proved, is its negation).
+
+// ---- handshake-state hand-off (C11) ---------------------------------------------------------
+
+//@ spec kspMap(p, P) = (P == nil <==> p == nil) && (P != nil ==> p.curveID == P.CurveID && p.ecdhe == P.Ecdhe && p.mlkem == P.Mlkem && p.mlkemEcdhe == P.MlkemEcdhe)
+
+// Getters of internal/tls13 used by toPublic13 (verified, not assumed).
+//@ func tls13.(*EarlySecret).Secret
+//@   property C11
+//@   pure
+//@   ensures nil: s == nil ==> isnil(ret)
+//@   ensures val: s != nil ==> ret == s.secret
+
+//@ func tls13.(*MasterSecret).Secret
+//@   property C11
+//@   pure
+//@   ensures nil: s == nil ==> isnil(ret)
+//@   ensures val: s != nil ==> ret == s.secret
+
+//@ func (*TLS13OnlyState).private13KeyShareKeys
+//@   property C31 C11
+//@   requires chs != nil
+//@   modifies nothing
+//@   ensures keys: chs.KeyShareKeys != nil ==> kspMap(ret, chs.KeyShareKeys) && fresh(ret)
+//@   ensures legacy: chs.KeyShareKeys == nil && chs.EcdheKey != nil ==> ret != nil && fresh(ret) && ret.ecdhe == chs.EcdheKey && ret.curveID == 0 && ret.mlkem == nil && ret.mlkemEcdhe == nil
+//@   ensures none: chs.KeyShareKeys == nil && chs.EcdheKey == nil ==> ret == nil
+//@   note KeyShareKeys takes precedence over the deprecated EcdheKey, as documented on TLS13OnlyState; KeySharesParams and KEMKey are documented as no longer used
+
+//@ func (*PubClientHandshakeState).toPrivate13
+//@   property C11 C31
+//@   modifies chs.Hello.cachedPrivateHello
+//@   ensures nil: chs == nil ==> ret == nil
+//@   ensures fresh: chs != nil ==> ret != nil && fresh(ret)
+//@   ensures c: chs != nil ==> ret.c == chs.C
+//@   ensures serverHello: chs != nil ==> shmMap(ret.serverHello, chs.ServerHello)
+//@   ensures hello: chs != nil ==> chmMap(ret.hello, chs.Hello)
+//@   ensures helloCached: chs != nil && chs.Hello != nil ==> chs.Hello.cachedPrivateHello == ret.hello
+//@   ensures keyShareKeys: chs != nil && chs.State13.KeyShareKeys != nil ==> kspMap(ret.keyShareKeys, chs.State13.KeyShareKeys)
+//@   ensures keyShareLegacy: chs != nil && chs.State13.KeyShareKeys == nil && chs.State13.EcdheKey != nil ==> ret.keyShareKeys != nil && ret.keyShareKeys.ecdhe == chs.State13.EcdheKey
+//@   ensures keyShareNone: chs != nil && chs.State13.KeyShareKeys == nil && chs.State13.EcdheKey == nil ==> ret.keyShareKeys == nil
+//@   ensures session: chs != nil ==> ret.session == chs.Session
+//@   ensures binderKey: chs != nil ==> ret.binderKey == chs.State13.BinderKey
+//@   ensures certReq: chs != nil ==> crmMap(ret.certReq, chs.State13.CertReq)
+//@   ensures usingPSK: chs != nil ==> ret.usingPSK == chs.State13.UsingPSK
+//@   ensures sentDummyCCS: chs != nil ==> ret.sentDummyCCS == chs.State13.SentDummyCCS
+//@   ensures suite: chs != nil ==> cs13Map(ret.suite, chs.State13.Suite)
+//@   ensures transcript: chs != nil ==> ret.transcript == chs.State13.Transcript
+//@   ensures trafficSecret: chs != nil ==> ret.trafficSecret == chs.State13.TrafficSecret
+//@   ensures uconn: chs != nil ==> ret.uconn == chs.uconn
+//@   ensures nocounterpart: chs != nil ==> ret.ctx == nil && ret.echContext == nil
+//@   ensures DROPPED_earlySecret: chs != nil && !isnil(chs.State13.EarlySecret) ==> ret.earlySecret != nil
+//@   ensures DROPPED_masterSecret: chs != nil && !isnil(chs.MasterSecret) ==> ret.masterSecret != nil
+//@   ensures actual_secrets_nil: chs != nil ==> ret.earlySecret == nil && ret.masterSecret == nil
+//@   note clientHandshakeStateTLS13 has 17 fields. ctx and echContext have no counterpart in PubClientHandshakeState (left nil; the caller sets them). earlySecret and masterSecret DO have counterparts (State13.EarlySecret, MasterSecret - toPublic13 exports them) but toPrivate13 does not convert them: the two DROPPED_ clauses are expected to fail (clause actual_secrets_nil, which is proved, is their negation); the only caller (UConn.clientHandshake) re-creates both by hand after the call, and only when session.cipherSuite != 0. State12 is ignored (TLS 1.2 only).
+
+//@ func (*clientHandshakeStateTLS13).toPublic13
+//@   property C11 C31
+//@   modifies nothing
+//@   ensures nil: chs13 == nil ==> ret == nil
+//@   ensures fresh: chs13 != nil ==> ret != nil && fresh(ret)
+//@   ensures C: chs13 != nil ==> ret.C == chs13.c
+//@   ensures ServerHello: chs13 != nil ==> shmMap(chs13.serverHello, ret.ServerHello)
+//@   ensures Hello: chs13 != nil ==> chmMap(chs13.hello, ret.Hello)
+//@   ensures HelloCached: chs13 != nil && chs13.hello != nil ==> ret.Hello.cachedPrivateHello == chs13.hello
+//@   ensures MasterSecret: chs13 != nil && chs13.masterSecret != nil ==> ret.MasterSecret == chs13.masterSecret.secret
+//@   ensures MasterSecretNil: chs13 != nil && chs13.masterSecret == nil ==> isnil(ret.MasterSecret)
+//@   ensures Session: chs13 != nil ==> ret.Session == chs13.session
+//@   ensures uconn: chs13 != nil ==> ret.uconn == chs13.uconn
+//@   ensures KeyShareKeys: chs13 != nil ==> kspMap(chs13.keyShareKeys, ret.State13.KeyShareKeys)
+//@   ensures Suite: chs13 != nil ==> cs13Map(chs13.suite, ret.State13.Suite)
+//@   ensures EarlySecret: chs13 != nil && chs13.earlySecret != nil ==> ret.State13.EarlySecret == chs13.earlySecret.secret
+//@   ensures EarlySecretNil: chs13 != nil && chs13.earlySecret == nil ==> isnil(ret.State13.EarlySecret)
+//@   ensures BinderKey: chs13 != nil ==> ret.State13.BinderKey == chs13.binderKey
+//@   ensures CertReq: chs13 != nil ==> crmMap(chs13.certReq, ret.State13.CertReq)
+//@   ensures UsingPSK: chs13 != nil ==> ret.State13.UsingPSK == chs13.usingPSK
+//@   ensures SentDummyCCS: chs13 != nil ==> ret.State13.SentDummyCCS == chs13.sentDummyCCS
+//@   ensures Transcript: chs13 != nil ==> ret.State13.Transcript == chs13.transcript
+//@   ensures TrafficSecret: chs13 != nil ==> ret.State13.TrafficSecret == chs13.trafficSecret
+//@   ensures deprecated: chs13 != nil ==> ret.State13.EcdheKey == nil && ret.State13.KeySharesParams == nil && ret.State13.KEMKey == nil
+//@   ensures State12: chs13 != nil ==> ret.State12.Suite.Id == 0 && ret.State12.Suite.Ka == nil && ret.State12.FinishedHash.Client == nil && ret.State12.FinishedHash.Version == 0 && ret.State12.FinishedHash.Prfv2 == nil && ret.State12.FinishedHash.Prf == nil
+//@   note PubClientHandshakeState has 8 fields (C, ServerHello, Hello, MasterSecret, Session, State12, State13, uconn) and TLS13OnlyState 12. All are named: the deprecated EcdheKey/KeySharesParams/KEMKey are left nil (the ECDHE key is exported through KeyShareKeys.Ecdhe only) and State12 is the zero value. Private fields ctx and echContext have no counterpart and are lost.
+
+//@ func (*PubClientHandshakeState).toPrivate12
+//@   property C11 C31
+//@   modifies chs.Hello.cachedPrivateHello
+//@   ensures nil: chs == nil ==> ret == nil
+//@   ensures fresh: chs != nil ==> ret != nil && fresh(ret)
+//@   ensures c: chs != nil ==> ret.c == chs.C
+//@   ensures serverHello: chs != nil ==> shmMap(ret.serverHello, chs.ServerHello)
+//@   ensures hello: chs != nil ==> chmMap(ret.hello, chs.Hello)
+//@   ensures helloCached: chs != nil && chs.Hello != nil ==> chs.Hello.cachedPrivateHello == ret.hello
+//@   ensures suite: chs != nil ==> ret.suite != nil && fresh(ret.suite) && ret.suite.id == chs.State12.Suite.Id && ret.suite.keyLen == chs.State12.Suite.KeyLen && ret.suite.macLen == chs.State12.Suite.MacLen && ret.suite.ivLen == chs.State12.Suite.IvLen && ret.suite.ka == chs.State12.Suite.Ka && ret.suite.flags == chs.State12.Suite.Flags && ret.suite.cipher == chs.State12.Suite.Cipher && ret.suite.mac == chs.State12.Suite.Mac && ret.suite.aead == chs.State12.Suite.Aead
+//@   ensures session: chs != nil ==> ret.session == chs.Session
+//@   ensures masterSecret: chs != nil ==> ret.masterSecret == chs.MasterSecret
+//@   ensures fhClient: chs != nil ==> ret.finishedHash.client == chs.State12.FinishedHash.Client
+//@   ensures fhServer: chs != nil ==> ret.finishedHash.server == chs.State12.FinishedHash.Server
+//@   ensures fhClientMD5: chs != nil ==> ret.finishedHash.clientMD5 == chs.State12.FinishedHash.ClientMD5
+//@   ensures fhServerMD5: chs != nil ==> ret.finishedHash.serverMD5 == chs.State12.FinishedHash.ServerMD5
+//@   ensures fhBuffer: chs != nil ==> ret.finishedHash.buffer == chs.State12.FinishedHash.Buffer
+//@   ensures fhVersion: chs != nil ==> ret.finishedHash.version == chs.State12.FinishedHash.Version
+//@   ensures fhPrf: chs != nil && chs.State12.FinishedHash.Prfv2 != nil ==> ret.finishedHash.prf == chs.State12.FinishedHash.Prfv2
+//@   ensures fhPrfOld: chs != nil && chs.State12.FinishedHash.Prfv2 == nil ==> (ret.finishedHash.prf != nil <==> chs.State12.FinishedHash.Prf != nil)
+//@   ensures uconn: chs != nil ==> ret.uconn == chs.uconn
+//@   ensures nocounterpart: chs != nil ==> ret.ctx == nil && isnil(ret.ticket)
+//@   note clientHandshakeState has 10 fields; ctx and ticket have no counterpart in PubClientHandshakeState and stay zero, the other eight are named (suite and finishedHash field by field). State13 is ignored.
+
+//@ func (*clientHandshakeState).toPublic12
+//@   property C11 C31
+//@   modifies nothing
+//@   ensures nil: chs12 == nil ==> ret == nil
+//@   ensures fresh: chs12 != nil ==> ret != nil && fresh(ret)
+//@   ensures C: chs12 != nil ==> ret.C == chs12.c
+//@   ensures ServerHello: chs12 != nil ==> shmMap(chs12.serverHello, ret.ServerHello)
+//@   ensures Hello: chs12 != nil ==> chmMap(chs12.hello, ret.Hello)
+//@   ensures HelloCached: chs12 != nil && chs12.hello != nil ==> ret.Hello.cachedPrivateHello == chs12.hello
+//@   ensures Session: chs12 != nil ==> ret.Session == chs12.session
+//@   ensures MasterSecret: chs12 != nil ==> ret.MasterSecret == chs12.masterSecret
+//@   ensures Suite: chs12 != nil && chs12.suite != nil ==> ret.State12.Suite.Id == chs12.suite.id && ret.State12.Suite.KeyLen == chs12.suite.keyLen && ret.State12.Suite.MacLen == chs12.suite.macLen && ret.State12.Suite.IvLen == chs12.suite.ivLen && ret.State12.Suite.Ka == chs12.suite.ka && ret.State12.Suite.Flags == chs12.suite.flags && ret.State12.Suite.Cipher == chs12.suite.cipher && ret.State12.Suite.Mac == chs12.suite.mac && ret.State12.Suite.Aead == chs12.suite.aead
+//@   ensures SuiteNil: chs12 != nil && chs12.suite == nil ==> ret.State12.Suite.Id == 0 && ret.State12.Suite.Ka == nil && ret.State12.Suite.Aead == nil
+//@   ensures FhClient: chs12 != nil ==> ret.State12.FinishedHash.Client == chs12.finishedHash.client
+//@   ensures FhServer: chs12 != nil ==> ret.State12.FinishedHash.Server == chs12.finishedHash.server
+//@   ensures FhClientMD5: chs12 != nil ==> ret.State12.FinishedHash.ClientMD5 == chs12.finishedHash.clientMD5
+//@   ensures FhServerMD5: chs12 != nil ==> ret.State12.FinishedHash.ServerMD5 == chs12.finishedHash.serverMD5
+//@   ensures FhBuffer: chs12 != nil ==> ret.State12.FinishedHash.Buffer == chs12.finishedHash.buffer
+//@   ensures FhVersion: chs12 != nil ==> ret.State12.FinishedHash.Version == chs12.finishedHash.version
+//@   ensures FhPrfv2: chs12 != nil ==> ret.State12.FinishedHash.Prfv2 == chs12.finishedHash.prf
+//@   ensures State13: chs12 != nil ==> ret.State13.KeyShareKeys == nil && ret.State13.Suite == nil && ret.State13.CertReq == nil && ret.State13.EcdheKey == nil && isnil(ret.State13.EarlySecret) && isnil(ret.State13.BinderKey) && isnil(ret.State13.TrafficSecret) && !ret.State13.UsingPSK && !ret.State13.SentDummyCCS && ret.State13.Transcript == nil
+//@   ensures uconn: chs12 != nil ==> ret.uconn == chs12.uconn
+//@   note all 8 fields of PubClientHandshakeState are named; State13 is the zero value. Private fields ctx and ticket (a fresh ticket received during this handshake) have no counterpart and are lost.
+
+// ---- session-ticket keys (C35) --------------------------------------------------------------
+
+//@ spec tkMap(p, P) = len(p) == len(P) && forall i in 0..len(P): p[i].aesKey == P[i].AesKey && p[i].hmacKey == P[i].HmacKey && p[i].created == P[i].Created
+
+//@ func TicketKey.ToPrivate
+//@   property C35 C31
+//@   modifies nothing
+//@   ensures aesKey: ret.aesKey == TK.AesKey
+//@   ensures hmacKey: ret.hmacKey == TK.HmacKey
+//@   ensures created: ret.created == TK.Created
+//@   ensures aesBytes: forall i in 0..16: ret.aesKey[i] == TK.AesKey[i]
+//@   ensures hmacBytes: forall i in 0..16: ret.hmacKey[i] == TK.HmacKey[i]
+//@   note ticketKey has exactly the fields aesKey, hmacKey, created; arrays and time.Time are compared as values
+
+//@ func tls.ticketKey.ToPublic
+//@   property C35 C31
+//@   modifies nothing
+//@   ensures AesKey: ret.AesKey == tk.aesKey
+//@   ensures HmacKey: ret.HmacKey == tk.hmacKey
+//@   ensures Created: ret.Created == tk.created
+//@   ensures aesBytes: forall i in 0..16: ret.AesKey[i] == tk.aesKey[i]
+//@   ensures hmacBytes: forall i in 0..16: ret.HmacKey[i] == tk.hmacKey[i]
+//@   note TicketKey has exactly the fields AesKey, HmacKey, Created; ToPrivate after ToPublic (and vice versa) is the identity (compose the two maps)
+
+// Key derivation (C35). sha512x32(b0..b31, i) names byte i of SHA-512 over the 32 bytes b0..b31 (uninterpreted:
+// spec functions cannot take an array, hence 32 integer arguments). Assumed: crypto/sha512.Sum512 is that function
+// and writes no memory; Config.time() (a call through the user's Config.Time or time.Now) writes no program memory.
+//@ uf sha512x32(Int, Int, Int, Int, Int, Int, Int, Int, Int, Int, Int, Int, Int, Int, Int, Int, Int, Int, Int, Int, Int, Int, Int, Int, Int, Int, Int, Int, Int, Int, Int, Int, Int) Int
+//@ spec tkhash(b, i) = sha512x32(b[0], b[1], b[2], b[3], b[4], b[5], b[6], b[7], b[8], b[9], b[10], b[11], b[12], b[13], b[14], b[15], b[16], b[17], b[18], b[19], b[20], b[21], b[22], b[23], b[24], b[25], b[26], b[27], b[28], b[29], b[30], b[31], i)
+
+//@ trusted func sha512.Sum512
+//@   pure
+//@   ensures len(data) == 32 ==> forall i in 0..64: ret[i] == tkhash(data, i)
+
+//@ trusted func (*Config).time
+//@   requires c != nil
+//@   modifies nothing
+
+// Upstream crypto/tls function, verified here because both TicketKeyFromBytes and SetSessionTicketKeys derive
+// their keys through it: aesKey = SHA-512(b)[16:32], hmacKey = SHA-512(b)[32:48], independent of the Config.
+//@ func (*Config).ticketKeyFromBytes
+//@   property C35
+//@   requires c != nil
+//@   modifies nothing
+//@   ensures aesKey: forall i in 0..16: key.aesKey[i] == tkhash(b, 16+i)
+//@   ensures hmacKey: forall i in 0..16: key.hmacKey[i] == tkhash(b, 32+i)
+
+//@ func TicketKeyFromBytes
+//@   property C35
+//@   modifies nothing
+//@   ensures AesKey: forall i in 0..16: ret.AesKey[i] == tkhash(b, 16+i)
+//@   ensures HmacKey: forall i in 0..16: ret.HmacKey[i] == tkhash(b, 32+i)
+//@   note "derives the same keys that SetSessionTicketKeys installs": SetSessionTicketKeys stores c.ticketKeyFromBytes(k) for every k, TicketKeyFromBytes returns (&Config{}).ticketKeyFromBytes(b).ToPublic(); by the contract of ticketKeyFromBytes the aes/hmac bytes are the same function tkhash of the 32 input bytes and do not depend on the Config, and ToPublic copies them (ticketKey.ToPublic above). Created is the current time of the respective Config clock and is not specified.
+
+// PARKED (generator: "UNSUPPORTED make/append to slice of structs with array-typed field", u_public.go:849;
+// ticketKeys.ToPublic additionally has no SSA function because it is never called). Re-enable by replacing
+// the leading "//  @" with "//@".
+//  @ func TicketKeys.ToPrivate
+//  @   property C35 C31
+//  @   modifies nothing
+//  @   ensures len: len(ret) == len(TKS)
+//  @   ensures elems: forall i in 0..len(TKS): ret[i].aesKey == TKS[i].AesKey && ret[i].hmacKey == TKS[i].HmacKey && ret[i].created == TKS[i].Created
+//  @   ensures all: tkMap(ret, TKS)
+//  @   ensures alloc: isnil(ret) || fresh(ret)
+//  @   ensures empty: len(TKS) == 0 ==> isnil(ret)
+//  @   loop 0 invariant -1 <= $rangeindex && $rangeindex < len(TKS)
+//  @   loop 0 invariant len(tks) == $k && (isnil(tks) || fresh(tks))
+//  @   loop 0 invariant $k == 0 ==> isnil(tks)
+//  @   loop 0 invariant forall i in 0..$k: tks[i].aesKey == TKS[i].AesKey && tks[i].hmacKey == TKS[i].HmacKey && tks[i].created == TKS[i].Created
+//  @ func tls.ticketKeys.ToPublic
+//  @   property C35 C31
+//  @   modifies nothing
+//  @   ensures len: len(ret) == len(tks)
+//  @   ensures elems: forall i in 0..len(tks): ret[i].AesKey == tks[i].aesKey && ret[i].HmacKey == tks[i].hmacKey && ret[i].Created == tks[i].created
+//  @   ensures all: tkMap(tks, ret)
+//  @   ensures alloc: isnil(ret) || fresh(ret)
+//  @   ensures empty: len(tks) == 0 ==> isnil(ret)
+//  @   loop 0 invariant -1 <= $rangeindex && $rangeindex < len(tks)
+//  @   loop 0 invariant len(TKS) == $k && (isnil(TKS) || fresh(TKS))
+//  @   loop 0 invariant $k == 0 ==> isnil(TKS)
+//  @   loop 0 invariant forall i in 0..$k: TKS[i].AesKey == tks[i].aesKey && TKS[i].HmacKey == tks[i].hmacKey && TKS[i].Created == tks[i].created
+
+// ---- UnmarshalClientHello / Marshal (C31 round trip) ------------------------------------------
+
+//@ trusted func strings.HasSuffix
+//@   pure
+//@   ensures ret <==> len(s) >= len(suffix) && forall j in 0..len(suffix): s[len(s) - len(suffix) + j] == suffix[j]
+
+// Upstream parser, verified here only for the two facts the round trip needs: a successful parse keeps the
+// input slice in m.original, and the input has at least the fixed-size prefix (4+2+32+1+2 bytes).
+// No frame clause: with `modifies *m` the VC generator exhausts memory on this function (11 loops), so callers
+// see the call as havocking the heap; the two postconditions are about the final state and survive that.
+//@ func (*clientHelloMsg).unmarshal
+//@   property C31
+//@   requires m != nil
+//@   ensures orig: ret ==> m.original == data
+//@   ensures minlen: ret ==> len(data) >= 41
+//@   ensures nonnil: ret ==> !isnil(data)
+//@   loop 0 invariant m.original == data
+//@   loop 1 invariant m.original == data
+//@   loop 2 invariant m.original == data
+//@   loop 3 invariant m.original == data
+//@   loop 4 invariant m.original == data
+//@   loop 5 invariant m.original == data
+//@   loop 6 invariant m.original == data
+//@   loop 7 invariant m.original == data
+//@   loop 8 invariant m.original == data
+//@   loop 9 invariant m.original == data
+//@   loop 10 invariant m.original == data
+
+// marshalMsg (upstream serializer built from cryptobyte.Builder continuations) is outside the generator's subset;
+// assumed only: it writes no existing memory (it reads m and appends to a private builder).
+//@ trusted func (*clientHelloMsg).marshalMsg
+//@   modifies nothing
+
+//@ func (*clientHelloMsg).marshal
+//@   property C31
+//@   requires m != nil
+//@   modifies nothing
+//@   ensures cached: !isnil(m.original) ==> ret0 == m.original && ret1 == nil
+//@   note [uTLS] marshal returns the stored wire image whenever there is one; the fields are serialized only when original is nil
+
+//@ func UnmarshalClientHello
+//@   property C31
+//@   ensures fresh: ret != nil ==> fresh(ret)
+//@   ensures iff: ret != nil <==> callres(unmarshal, 0)
+//@   ensures raw: ret != nil ==> ret.Raw == data
+//@   ensures minlen: ret != nil ==> len(data) >= 41 && !isnil(data)
+//@   ensures cache: ret != nil ==> ret.cachedPrivateHello != nil && fresh(ret.cachedPrivateHello) && chmMap(ret.cachedPrivateHello, ret)
+//@   note clause iff: nil is returned exactly when clientHelloMsg.unmarshal rejects the input. The parsed field values themselves are not specified here (that is the parser's contract); what the round trip needs is that Raw is the very input slice.
+
+//@ func (*PubClientHelloMsg).Marshal
+//@   property C31
+//@   requires chm != nil
+//@   modifies chm.cachedPrivateHello
+//@   ensures raw: !isnil(chm.Raw) ==> ret0 == chm.Raw && ret1 == nil
+//@   ensures cached: chm.cachedPrivateHello != nil && fresh(chm.cachedPrivateHello) && chmMap(chm.cachedPrivateHello, chm)
+//@   note requires chm != nil comes from the code: getPrivatePtr maps a nil receiver to nil but marshal then dereferences it, so (*PubClientHelloMsg)(nil).Marshal() panics. Round trip C31: for every data with p := UnmarshalClientHello(data) != nil we have p.Raw == data and data non-nil (UnmarshalClientHello.raw/minlen), hence p.Marshal() returns exactly data, nil (clause raw) - the same slice, not a copy. NB this holds because Marshal short-circuits on Raw: after editing fields of p the caller must set p.Raw = nil, otherwise Marshal keeps returning the old bytes.
